@@ -113,6 +113,14 @@ def handle : DrvHandler := fun op args =>
       -- how the task ended → may the timer be spawned again in this process
       let e ← (match how with | "stopped" => some Exit.stopped | "returned" => some Exit.returned | "raised" => some Exit.raised | _ => none)
       some (ok (.bool (respawnable (foreverAfter already e))))
+  | "C10.carry", [.bool raised, pj, rj] => do
+      -- what the next iteration's `cause.patch` starts with: items handed to the post-run patch / handed back by it
+      let patch ← (← jArr? pj).mapM jNat?
+      let remaining ← (← jArr? rj).mapM jNat?
+      let ended := if raised then PatchEnd.raised else PatchEnd.delivered
+      some (ok (Json.mkObj [
+        ("carried", .arr ((carriedPatch onPatchError patch remaining ended).map (fun n => Json.num (JsonNumber.fromNat n))).toArray),
+        ("goes_on", .bool (exitAfterPatch onPatchError ended).isNone)]))
   | "C10.reset", [lh, seen, e] => do
       let lh ← jOpt? jNat? lh
       let seen ← jOpt? jNat? seen
